@@ -586,6 +586,42 @@ func curveSections(r *vlib.Run) {
 				}
 			}
 		}
+		if rng.Intn(6) == 0 {
+			// an evenly sampled path whose steps are equal only up to a relative 1e-10..1e-5 (coordinates
+			// that went through a float32 file, a resampled stroke): straight, L-shaped or zigzag, the
+			// deviations systematic (short steps first, long steps last) or random
+			m = 20 + rng.Intn(1500)
+			dev := logUniform(rng, 1e-10, 1e-5)
+			shape := rng.Intn(3)
+			systematic := rng.Intn(2) == 0
+			pts = make([][2]float64, m+1)
+			x, y := rng.NormFloat64()*scale, rng.NormFloat64()*scale
+			pts[0] = [2]float64{x, y}
+			h := scale * (0.5 + rng.Float64())
+			for i := 1; i <= m; i++ {
+				d := dev * (2*rng.Float64() - 1)
+				if systematic {
+					d = -dev
+					if i > m/2 {
+						d = dev
+					}
+				}
+				step := h * (1 + d)
+				switch {
+				case shape == 1 && i > m/2:
+					y += step
+				case shape == 2 && i%2 == 0:
+					x, y = x+step*0.6, y-step*0.8
+				case shape == 2:
+					x, y = x+step*0.6, y+step*0.8
+				default:
+					x += step
+				}
+				pts[i] = [2]float64{x, y}
+			}
+			integers = false
+			c.Count("segment_curve.polylines_with_nearly_equal_steps", 1)
+		}
 		// repeated vertices (zero-length segments): paths joined end to start, a closing vertex
 		// written twice, a corner exported twice
 		repeated := 0
